@@ -25,7 +25,7 @@ Proof.
     rewrite (Z.rem_mul_r a 65536 (65536 ^ Z.of_nat k)) by (try lia; apply Z.pow_pos_nonneg; lia). lia.
 Qed.
 Lemma groups_of_value_facts a : (0 <= a < 2 ^ 128)%Z ->
-  length (groups_of_value a) = 8 /\ Forall lt16 (groups_of_value a) /\ value_of (groups_of_value a) = a.
+  (length (groups_of_value a) = 8)%nat /\ Forall lt16 (groups_of_value a) /\ value_of (groups_of_value a) = a.
 Proof.
   intros H. unfold groups_of_value. split; [rewrite rev_length; apply groups_rev_length|]. split.
   - apply Forall_rev. apply groups_rev_lt16.
